@@ -423,7 +423,9 @@ func c08Main(args []string) {
 		if j.Force || len(j.Seed) > 48*1024 {
 			continue
 		}
-		if run.Thorough() || i%5 == int(run.Seed%5) {
+		// (the generated boundary-number documents are in every run: negative big integers, int64 min, -0.0 …
+		// must not depend on which corpus files the slice happens to hold — seed C08-A was lost that way once)
+		if run.Thorough() || i%5 == int(run.Seed%5) || strings.HasPrefix(j.Label, "generated/") {
 			keep = append(keep, j)
 		}
 	}
